@@ -298,7 +298,18 @@ func (r *Reader) newBlockReader(nextOff uint64, wantTyp byte) (br *blockReader, 
 		headerOff = uint32(headerSize(r.version))
 	}
 
-	return newBlockReader(block, headerOff, r.header.BlockSize, r.hashSize)
+	br, err = newBlockReader(block, headerOff, r.header.BlockSize, r.hashSize)
+	for blockTyp == blockTypeLog && err == io.ErrUnexpectedEOF && nextOff+uint64(len(block)) < r.size {
+		// The block size of a log block is its inflated size; the
+		// compressed data can be longer than that (and than the
+		// table's block size). Read more and try again.
+		block, err = r.getBlock(nextOff, 2*uint32(len(block)))
+		if err != nil {
+			return nil, err
+		}
+		br, err = newBlockReader(block, headerOff, r.header.BlockSize, r.hashSize)
+	}
+	return br, err
 }
 
 // nextBlock moves to the next block, or returns false fi there is none.
